@@ -76,11 +76,21 @@ func coerceToNumeric(v float64) float64 {
 	return v
 }
 
+// batchCapacity is the capacity a new batch is allocated with: the batch size, unless that is larger
+// than the default batch size. The configured value only has to be positive, and allocating a very
+// large one up front exhausts memory or panics (makeslice: cap out of range); append grows the batch.
+func batchCapacity(metricsPerBatch uint) uint {
+	if metricsPerBatch > defaultMetricsPerBatch {
+		return defaultMetricsPerBatch
+	}
+	return metricsPerBatch
+}
+
 func (f *flush) maybeFlush() {
 	if uint(len(f.ts.Series))+20 >= f.metricsPerBatch { // flush before it reaches max size and grows the slice
 		f.cb(f.ts)
 		f.ts = &timeSeries{
-			Series: make([]metric, 0, f.metricsPerBatch),
+			Series: make([]metric, 0, batchCapacity(f.metricsPerBatch)),
 		}
 	}
 }
